@@ -21,7 +21,8 @@ import (
 // fails without effect and its replies are not delivered) and may make S3 uploads
 // fail. Then a fresh broker over the same bucket and store must serve every record
 // acknowledged before the crash at its offset, and a new append must get an offset
-// above everything acknowledged or visible below the published high watermark.
+// above everything acknowledged or visible below the published high watermark. A second
+// fresh broker over what the first recovery left must find the same.
 
 type c06Scenario struct {
 	Name      string
@@ -189,6 +190,48 @@ func c06Body(sc c06Scenario, verbose bool) func(s *sched.Sched) {
 				}
 			}
 		}
+		// ---- a second restart: whatever the first recovery published must itself be recoverable ----
+		if err == nil && res.Code == 0 {
+			s3c := fakes3.New(bucket, "b3")
+			s3c.NoPoints = true
+			h3 := vNewHandler(&vStore{Store: inner, NoPoints: true}, s3c)
+			h3.logConfig.Buffer.FlushInterval = 0
+			h3.logConfig.ReadAheadSegments = 0
+			defer h3.coordinator.Stop()
+			type want struct {
+				what  string
+				base  int64
+				bytes []byte
+			}
+			wants := []want{{"the batch appended after the first restart", res.Base, extra}}
+			for _, snt := range sent {
+				if snt.Done && snt.Err == nil && snt.Res.Code == 0 {
+					wants = append(wants, want{fmt.Sprintf("p%d.%d (acknowledged before the crash)", snt.Producer, snt.Seq), snt.Res.Base, snt.Bytes})
+				}
+			}
+			for _, wnt := range wants {
+				vCalm()
+				fr, ferr := vFetchOne(h3, "t", 0, wnt.base, 1<<20)
+				ok := false
+				if ferr == nil && fr.Code == 0 {
+					for _, d := range vLooseBatches(fr.Records) {
+						if d.BaseOffset == wnt.base && vSameBatch(d.Raw, wnt.bytes) {
+							ok = true
+						}
+					}
+				}
+				if !ok {
+					s.Fail("unreadable-after-second-restart", "%s at base %d is not readable after a second restart: err=%v code=%d (crashed=%v orphan=%v keys=%v)", wnt.what, wnt.base, ferr, fr.Code, crashed, orphan, bucket.Keys())
+					break
+				}
+			}
+			vCalm()
+			if r3, e3 := vProduceOne(h3, "t", 0, -1, enum.SimpleBatch("after2", 1, 5)); e3 != nil || r3.Code != 0 {
+				s.Fail("partition-unusable-after-second-restart", "produce after the second restart: err=%v code=%d (crashed=%v orphan=%v keys=%v)", e3, r3.Code, crashed, orphan, bucket.Keys())
+			} else if r3.Base <= res.Base || r3.Base <= maxAcked {
+				s.Fail("offset-reuse-after-second-restart", "batch appended after the second restart got base %d (first-restart append at %d, last acknowledged %d)", r3.Base, res.Base, maxAcked)
+			}
+		}
 		var sig string
 		for _, snt := range sent {
 			sig += fmt.Sprintf("p%d.%d:%v/c%d@%d;", snt.Producer, snt.Seq, snt.Done, snt.Res.Code, snt.Res.Base)
@@ -203,7 +246,7 @@ func c06Body(sc c06Scenario, verbose bool) func(s *sched.Sched) {
 func TestVerifC06(t *testing.T) {
 	rep := vh.New(t, "C06")
 	defer rep.Finish()
-	rep.Rule = "for each request history: DFS over crash decisions before every S3/metadata-store operation, S3 upload failure decisions (deviation bound), and interleavings of the concurrent segment/index uploads and producer threads (preemption bound); each execution ends with a restart (fresh handler over the same bucket and store) and the recovery oracle; distinct = distinct (acks, crash, orphan, bucket, watermark, new base) outcomes; non-trivial = a crash or failure was injected"
+	rep.Rule = "for each request history: DFS over crash decisions before every S3/metadata-store operation, S3 upload failure decisions (deviation bound), and interleavings of the concurrent segment/index uploads and producer threads (preemption bound); each execution ends with a restart (fresh handler over the same bucket and store) and the recovery oracle, then a second restart over what the first recovery left (everything acknowledged or appended so far readable, partition usable, no offset reuse); distinct = distinct (acks, crash, orphan, bucket, watermark, new base) outcomes; non-trivial = a crash or failure was injected"
 	rep.Assumptions = []string{"S3 PUT is atomic; a crashed incarnation performs no further S3/store effects", "in-memory metadata store stands for etcd", "'shown to a consumer' = below the published next_offset (fetch serves only below it)"}
 	P, D := 2, 2
 	if vh.Thorough() {
